@@ -139,4 +139,40 @@ theorem margStep_closed (n k : ℕ) (hk : 3 ≤ k) (hkn : k + 1 ≤ n) :
   rw [e1, e2, em, e4, e5, e6, e7, e8, e9, e10]
   exact closed_append_core m' k'
 
+/-! ### The interleaved inner loop equals "dot product, then update" -/
+
+theorem innerLoop_upd (n k : ℕ) (c : α) (val : ℕ → α) :
+    ∀ (ps : List α) (a : ℕ) (acc : α),
+      innerLoop n k c true val a ps acc = (updFrom n k c a ps, acc + dotFrom val a ps) := by
+  intro ps
+  induction ps with
+  | nil => intro a acc; simp [innerLoop, updFrom, dotFrom]
+  | cons p ps ih =>
+    intro a acc
+    simp only [innerLoop, updFrom, dotFrom, ih, if_true]
+    refine Prod.ext rfl ?_
+    simp only
+    ring
+
+theorem innerLoop_noupd (n k : ℕ) (c : α) (val : ℕ → α) :
+    ∀ (ps : List α) (a : ℕ) (acc : α),
+      innerLoop n k c false val a ps acc = (ps, acc + dotFrom val a ps) := by
+  intro ps
+  induction ps with
+  | nil => intro a acc; simp [innerLoop, dotFrom]
+  | cons p ps ih =>
+    intro a acc
+    simp only [innerLoop, dotFrom, ih]
+    refine Prod.ext (by simp) ?_
+    simp only
+    ring
+
+/-- The loop body as the code runs it equals the separated form used in the proofs. -/
+theorem margBody_eq_ref (n : ℕ) (val : ℕ → α) (s : MState α) (k : ℕ) :
+    margBody n val s k = margBodyRef n val s k := by
+  unfold margBody margBodyRef
+  by_cases h : 2 < k
+  · simp only [h, decide_true, if_true, innerLoop_upd, Nat.cast_zero, zero_add, margStep]
+  · simp only [h, decide_false, if_false, innerLoop_noupd, Nat.cast_zero, zero_add]
+
 end Tsdate.Coalescent
